@@ -18,6 +18,10 @@
 #include "geoslib_io.h"
 #include <cmath>
 #include <memory>
+#include <functional>
+#include <sys/wait.h>
+#include <time.h>
+#include <unistd.h>
 
 using namespace vh;
 using refp::I64;
@@ -29,6 +33,31 @@ struct LibAbort
 {
 };
 static void onLibExit() { throw LibAbort(); }
+
+// Run fn in a forked child with a wall-clock limit: 0 = returned, 1 = still running after 'seconds' (killed), 2 = died.
+// Used where a library call was seen not to terminate, so that the event is an oracle failure and not a stalled worker.
+static int runGuarded(const std::function<void()>& fn, int seconds)
+{
+  fflush(nullptr);
+  pid_t pid = fork();
+  if (pid < 0) return 0; // cannot fork: run unguarded
+  if (pid == 0)
+  {
+    fn();
+    _exit(0);
+  }
+  for (int t = 0; t < seconds * 100; t++)
+  {
+    int st  = 0;
+    pid_t w = waitpid(pid, &st, WNOHANG);
+    if (w == pid) return (WIFEXITED(st) && WEXITSTATUS(st) == 0) ? 0 : 2;
+    struct timespec ts = {0, 10 * 1000 * 1000};
+    nanosleep(&ts, nullptr);
+  }
+  kill(pid, SIGKILL);
+  waitpid(pid, nullptr, 0);
+  return 1;
+}
 
 // ------------------------------------------------------------------------------------------------------------
 // integer -> double mapping
@@ -757,6 +786,9 @@ static void caseHull(Rng& r, Ctx& c)
 {
   defineDefaultSpace(ESpaceType::RN, 2);
   Frame f = genFrame(r);
+  // small-scale stratum: data sets whose whole extent is 1e-2 .. 1e-5 (e.g. metres expressed in kilometres)
+  bool small = r.coin(0.06);
+  if (small) { f = Frame(); f.h = std::ldexp(1.0, r.irange(-20, -12)); }
   int lay = r.irange(0, 4);
   int n   = r.coin(0.2) ? r.irange(3, 6) : r.irange(7, c.thorough() ? 150 : 60);
   int R   = r.pick(std::vector<int>{3, 6, 12, 30});
@@ -787,6 +819,7 @@ static void caseHull(Rng& r, Ctx& c)
   Ring hull = refp::convexHull(act);
   double dilate = r.coin(0.3) ? f.h * r.pick(std::vector<double>{0.5, 2., 7.}) : 0.;
   c.setSig(fmt("hull:%s:n%d:R%d:dup%d:sel%d:dil%d:h%g", lname.c_str(), n / 10, R, (int)dupl, (int)hasSel, (int)(dilate > 0), f.h));
+  c.putn("h", f.h);
   c.puts("kind", "hull");
   c.puts("layout", lname);
   c.putn("n", n);
@@ -807,9 +840,19 @@ static void caseHull(Rng& r, Ctx& c)
     db->addColumns(y, "x2", ELoc::X, 1);
     if (hasSel) db->addColumns(VectorDouble(sel), "sel", ELoc::SEL, 0);
   }
+  if (small)
+  {
+    // the hull construction was seen not to terminate on small-extent data: try it in a child first
+    Db* dbp = db.get();
+    int g   = runGuarded([dbp, dilate]() { Polygons* p = Polygons::createFromDb(dbp, dilate); (void)p; }, 10);
+    if (!c.truth("hull-build", "C20:hull:small-scale", g != 1, "Polygons::createFromDb does not return (stopped after 10 s)")) return;
+    if (!c.truth("hull-build", "C20:hull:small-scale", g != 2, "Polygons::createFromDb aborts the process")) return;
+  }
   std::unique_ptr<Polygons> pol(Polygons::createFromDb(db.get(), dilate));
   std::string kh = std::string("C20:hull:") + (dilate > 0 ? "dilated" : "plain");
-  if (!c.truth("hull-build", kh + ":createFromDb-failed", pol != nullptr && pol->getPolyElemNumber() == 1,
+  // one key for everything observed in the small-scale stratum
+  auto KH = [&](const char* suffix) { return small ? std::string("C20:hull:small-scale") : kh + suffix; };
+  if (!c.truth("hull-build", KH(":createFromDb-failed"), pol != nullptr && pol->getPolyElemNumber() == 1,
                "Polygons::createFromDb on >= 3 non-collinear active samples"))
     return;
   const PolyElem& pe = pol->getPolyElem(0);
@@ -826,7 +869,7 @@ static void caseHull(Rng& r, Ctx& c)
       if ((double)p.x != gx || (double)p.y != gy || std::find(act.begin(), act.end(), p) == act.end()) allSamples = false;
       got.push_back(p);
     }
-    c.truth("hull-vertices", kh + ":vertex-not-a-sample", allSamples, "every hull vertex is an active sample");
+    c.truth("hull-vertices", KH(":vertex-not-a-sample"), allSamples, "every hull vertex is an active sample");
     if (!allSamples) return;
     if (got.size() > 1 && got.front() == got.back()) got.pop_back();
     // the hull contains all the points it was built from
@@ -834,18 +877,18 @@ static void caseHull(Rng& r, Ctx& c)
     std::string miss;
     for (auto& p : act)
       if (got.size() < 3 || refp::locate(got, p) < 0) { contains = false; miss = fmt("(%lld,%lld)", p.x, p.y); break; }
-    c.truth("hull-contains", kh + ":sample-outside-hull", contains, "active sample strictly outside the returned hull " + miss);
+    c.truth("hull-contains", KH(":sample-outside-hull"), contains, "active sample strictly outside the returned hull " + miss);
     // it is the convex hull: every true hull vertex is returned, every returned vertex lies on the true hull boundary
     bool exact = true;
     for (auto& p : hull) if (std::find(got.begin(), got.end(), p) == got.end()) exact = false;
     for (auto& p : got) if (refp::locate(hull, p) != 0) exact = false;
-    c.truth("hull-exact", kh + ":not-the-convex-hull", exact, fmt("%zu returned vertices, %zu true hull vertices", got.size(), hull.size()));
+    c.truth("hull-exact", KH(":not-the-convex-hull"), exact, fmt("%zu returned vertices, %zu true hull vertices", got.size(), hull.size()));
     // point test on the samples: strictly interior samples are inside
     for (auto& p : act)
     {
       if (refp::locate(hull, p) <= 0) { c.skip("on-boundary"); continue; }
       VectorDouble coor = {f.X(p.x), f.Y(p.y)};
-      c.truth("hull-inside", kh + ":interior-sample-not-inside", pol->inside(coor, false), fmt("sample (%lld,%lld)", p.x, p.y));
+      c.truth("hull-inside", KH(":interior-sample-not-inside"), pol->inside(coor, false), fmt("sample (%lld,%lld)", p.x, p.y));
     }
   }
   // ---- selection of a second (gridded) Db by the hull of the first
@@ -862,9 +905,9 @@ static void caseHull(Rng& r, Ctx& c)
   int ng = g->getSampleNumber();
   // a previous selection on the target must not matter: "all samples must be checked"
   int err = g->addSelectionFromDbByConvexHull(db.get(), dilate);
-  if (!c.truth("hull-select", kh + ":addSelectionFromDbByConvexHull-failed", err == 0, fmt("error code %d", err))) return;
+  if (!c.truth("hull-select", KH(":addSelectionFromDbByConvexHull-failed"), err == 0, fmt("error code %d", err))) return;
   VectorDouble sv = g->getColumnByLocator(ELoc::SEL, 0);
-  if (!c.truth("hull-select", kh + ":selection-locator", (int)sv.size() == ng, "selection column present")) return;
+  if (!c.truth("hull-select", KH(":selection-locator"), (int)sv.size() == ng, "selection column present")) return;
   for (int i = 0; i < ng; i++)
   {
     Pt q{gx0 + (I64)(i % nx) * step, gy0 + (I64)(i / nx) * step};
@@ -873,19 +916,19 @@ static void caseHull(Rng& r, Ctx& c)
     if (dilate == 0.)
     {
       if (loc == 0) { c.skip("on-boundary"); continue; }
-      c.truth("hull-select", kh + ":selection", (sv[i] != 0.) == (loc > 0), w);
+      c.truth("hull-select", KH(":selection"), (sv[i] != 0.) == (loc > 0), w);
     }
     else
     {
       // dilated hull: between the hull (must be selected) and the hull grown by the radius (beyond: not selected)
-      if (loc > 0) { c.truth("hull-select", kh + ":inside-hull-not-selected", sv[i] != 0., w); continue; }
+      if (loc > 0) { c.truth("hull-select", KH(":inside-hull-not-selected"), sv[i] != 0., w); continue; }
       long double dmin = 1e30L;
       int nh = (int)hull.size();
       for (int k = 0; k < nh; k++)
         dmin = std::min(dmin, refp::distToSegment((long double)q.x, (long double)q.y, (long double)hull[k].x, (long double)hull[k].y,
                                                   (long double)hull[(k + 1) % nh].x, (long double)hull[(k + 1) % nh].y));
       long double rad = (long double)dilate / f.h;
-      if (dmin > rad * (1 + 1e-9L) + 1e-9L) c.truth("hull-select", kh + ":beyond-radius-selected", sv[i] == 0., w + fmt(" dist %.6Lg radius %.6Lg", dmin, rad));
+      if (dmin > rad * (1 + 1e-9L) + 1e-9L) c.truth("hull-select", KH(":beyond-radius-selected"), sv[i] == 0., w + fmt(" dist %.6Lg radius %.6Lg", dmin, rad));
       else c.skip("dilation-band");
     }
   }
